@@ -21,5 +21,6 @@ MODULES = {
     "C15": _SOCK + _HB + ["contracts.api_airtouch"],
     "C16": _SOCK,
     "C17": _CODECS + _SOCK,
-    "C19": _API,
+    "C18": ["contracts.discovery"],
+    "C19": _API + ["contracts.discovery"],
 }
